@@ -24,6 +24,13 @@ deriving Repr, DecidableEq, Inhabited
 
 deriving instance DecidableEq for Except
 
+/-- does `except <classes>:` catch this?  (`[]` = `except Exception`; running out of fuel or leaving the modelled fragment is
+not a Python exception and is never caught) -/
+def PyErr.caughtBy (e : PyErr) (classes : List String) : Bool :=
+  match e with
+  | .raised c => classes.isEmpty || classes.contains c
+  | _ => false
+
 /-- loop control value produced by one iteration of a translated loop body -/
 inductive Ctl (σ ρ : Type)
   | next (s : σ)   -- fell off the end of the body, or `continue`
@@ -62,6 +69,11 @@ variable {σ α β : Type}
   | (.ok a, s') => (.ok a, s')
   | (.error (.raised c), s') => if classes.isEmpty || classes.contains c then h s' else (.error (.raised c), s')
   | (.error e, s') => (.error e, s')
+
+/-- run `m`, turning a raised exception into a value (the object's state after the raise is kept) -/
+@[inline] def attempt (m : PyM σ α) : PyM σ (Except PyErr α) := fun s =>
+  match m s with
+  | (r, s') => (.ok r, s')
 
 instance : Monad (PyM σ) where
   pure := PyM.pure
